@@ -18,7 +18,10 @@
 // tries garbage-collected; one replica with a small dirty-cache allowance whose
 // trie nodes are written to disk by triedb.Cap, beside an archive replica; one
 // replica reopened with the snapshot switched on while the chain is busy, so that
-// it executes blocks while its snapshot is still being generated). ValidatorSet.UpdateWithChangeSet must not depend on
+// it executes blocks while its snapshot is still being generated; one replica on a database that
+// records every durable unit, of which crash images are taken - inside disk-layer merges written in
+// several batches and at arbitrary units - on which a node is started as after a power loss and
+// re-executes the blocks it lost, crash.go). ValidatorSet.UpdateWithChangeSet must not depend on
 // the order of the change set. A simulated multi-node network with
 // heterogeneous cache configurations executes transaction-carrying blocks on
 // every node.
@@ -128,13 +131,15 @@ func readFingerprints(dir, group string) map[int][]string {
 
 func Main() {
 	r := core.Start("C06", "exploration")
-	r.SetRule("case = generated genesis (1-6 staking validators, EOAs, value-moving and environment-recording contracts, a storage-churn contract, a CREATE2 factory whose child reads its slots before writing them and can self-destruct, two forges (CREATE / CREATE2 of init code given in the call data, optionally reverting afterwards), a probe logging BALANCE / EXTCODESIZE / EXTCODEHASH of an address, balance-only accounts at the forges' creation addresses and at the EOAs' first 40 creation-transaction addresses) + a chain of 3-10 blocks (group long: 178-207 blocks, thorough up to 300) built by CreateProposalBlock from a replica's pool or by hand with invalid transactions mixed in (before / at / after the Galaxias fork), applied with ValidateBlock+SaveBlock+ApplyBlock on 4 (quick) or 6 (thorough) replicas: different cache configurations, always at least one with and one without the snapshot tree, some stopped and reopened from their databases at random heights or before the last block, long-running ones beside them; groups valreports / corpus: a validator report (members leave, join, swap with equal or own power, change power, unchanged) at most heights, handed to every replica in its own order (validator-set order, its reverse, by address, shuffled); creation workload in every chain (every block of a short chain, every fifth of a long one; fixed script in two corpus scenarios): creations through CREATE, CREATE2 and creation transactions whose init code ends in REVERT / invalid opcode / out of gas / stack underflow / oversize code / code-deposit out of gas, or succeeds inside a call frame that then reverts, aimed at addresses funded in the genesis state or by an earlier transfer and placed last in the block (nothing else touches the address in that block), then in later blocks (preferably the next) transfers to the address, probe calls, a creation at the same address that succeeds and a call that makes the new contract pay out; group long: > 128 blocks with a few thousand slot writes per block in the first part, so that snapshot layers are flattened and merged into the disk layer and tries are garbage-collected, with slots and contracts written early, cleared / destroyed later and read / re-created after those changes reached the disk layer; long-chain replicas: 0 = long-running with the snapshot, 1 = long-running trie-only with TrieDirtyLimit 1 MB (beyond block 128 triedb.Cap writes its oldest trie nodes to disk, tens of MB at the first call, observed through state roots appearing in its database although it is never stopped), 2 = stopped and reopened, 3 = an archive configuration (chains 0 mod 3), or a node started without the snapshot and reopened up to 8 times during the busy part alternately with the snapshot in background generation (node-defaults / archive-node, SnapshotWait=false as backend.go passes) and without it (chains 1 mod 3; the ballast contract holds 10000 more slots in the genesis state, so generation lasts about as long as a block; reopened replicas apply the block first; the generator's own progress record in the database tells whether it was still running before and after the block), or any configuration; non-trivial = a height whose block produced at least one receipt and was compared on all replicas; distinct by (case, height)")
+	r.SetRule("case = generated genesis (1-6 staking validators, EOAs, value-moving and environment-recording contracts, a storage-churn contract, a CREATE2 factory whose child reads its slots before writing them and can self-destruct, two forges (CREATE / CREATE2 of init code given in the call data, optionally reverting afterwards), a probe logging BALANCE / EXTCODESIZE / EXTCODEHASH of an address, balance-only accounts at the forges' creation addresses and at the EOAs' first 40 creation-transaction addresses) + a chain of 3-10 blocks (group long: 178-207 blocks, thorough up to 300) built by CreateProposalBlock from a replica's pool or by hand with invalid transactions mixed in (before / at / after the Galaxias fork), applied with ValidateBlock+SaveBlock+ApplyBlock on 4 (quick) or 6 (thorough) replicas: different cache configurations, always at least one with and one without the snapshot tree, some stopped and reopened from their databases at random heights or before the last block, long-running ones beside them; groups valreports / corpus: a validator report (members leave, join, swap with equal or own power, change power, unchanged) at most heights, handed to every replica in its own order (validator-set order, its reverse, by address, shuffled); creation workload in every chain (every block of a short chain, every fifth of a long one; fixed script in two corpus scenarios): creations through CREATE, CREATE2 and creation transactions whose init code ends in REVERT / invalid opcode / out of gas / stack underflow / oversize code / code-deposit out of gas, or succeeds inside a call frame that then reverts, aimed at addresses funded in the genesis state or by an earlier transfer and placed last in the block (nothing else touches the address in that block), then in later blocks (preferably the next) transfers to the address, probe calls, a creation at the same address that succeeds and a call that makes the new contract pay out; group long: > 128 blocks with a few thousand slot writes per block in the first part, so that snapshot layers are flattened and merged into the disk layer and tries are garbage-collected, with slots and contracts written early, cleared / destroyed later and read / re-created after those changes reached the disk layer; long-chain replicas: 0 = long-running with the snapshot, 1 = long-running trie-only with TrieDirtyLimit 1 MB (beyond block 128 triedb.Cap writes its oldest trie nodes to disk, tens of MB at the first call, observed through state roots appearing in its database although it is never stopped), 2 = stopped and reopened, 3 = an archive configuration (chains 0 mod 3), or a node started without the snapshot and reopened up to 8 times during the busy part alternately with the snapshot in background generation (node-defaults / archive-node, SnapshotWait=false as backend.go passes) and without it (chains 1 mod 3; the ballast contract holds 10000 more slots in the genesis state, so generation lasts about as long as a block; reopened replicas apply the block first; the generator's own progress record in the database tells whether it was still running before and after the block), or any configuration; crash-restarted replicas (crash.go): in every long chain one replica runs on a database that records each durable unit (Put / Delete / batch Write) - replica 0 itself in even chains (nothing but snapshot merges reaches its disk: a crash rewinds the head to the genesis), in odd chains a fifth replica with the node defaults and one clean stop in the first ten blocks (a crash rewinds the head to that stop; thorough: in every fourth chain a fifth replica with a trie timeout of 1 ns instead, which commits the trie of block h-128 at every block); a sprayer contract pays 1 wei to each of 2300 genesis accounts (code, a storage slot, a 26-byte balance) every 7-11 blocks of the first part, so that the layer merged into the disk layer carries more than 100 KB of account data and diffToDisk writes it in 3 batches; database images are taken as of the unit after the first / after the last but one batch of the first such merges (2 per chain, thorough 3) and as of arbitrary units (inside one of the first 40 blocks; inside the clean stop or the block after it; thorough also inside a block beyond 128 and two anywhere); on each image a node is built as at start-up (same cache configuration, snapshot on with SnapshotWait=false) and, beside the chain that goes on, applies the chain's blocks above the head it came up with, up to 16 (thorough 40) blocks beyond the crash; every block is compared (app hash, stored receipts / bloom / gas, returned validators, LatestBlockState, Store.Load) with what the never-crashed replicas made of it (violation keys end in crash-restarted-database); non-trivial = a height whose block produced at least one receipt and was compared on all replicas; distinct by (case, height)")
 	r.Assume("commits are produced by signing precommits with the validator keys (consensus itself is not run in the replica groups; the simulated-network group runs it)")
 	r.Assume("which transactions a proposer picks and in which order is not part of the property (pool iteration order is random by design); only the result of executing a given block is compared, and runs are compared across processes only where they executed the same block")
 	r.Assume("validator reports in the replica groups are synthetic: the list the application returns is replaced, identically on all replicas but in replica-specific order, by a membership process over the genesis validators (all known to the staking contract); what ApplyBlock (calculateValidatorSetUpdates, updateState) makes of it is compared, not whether the staking contract would report it")
-	r.Assume("replica configurations are those a node can be started with (mainchain/backend.go copies cache sizes, NoPruning, NoPrefetch, Preimages and SnapshotCache into blockchain.CacheConfig; --cache.snapshot=0 runs without the snapshot tree; SnapshotWait=false, i.e. background generation, is what backend.go passes); a restart is BlockChain.Stop (snapshot journal, head tries) followed by NewBlockChain on the same database, as Kardiachain.Stop / New do; crashes are C05's subject")
+	r.Assume("replica configurations are those a node can be started with (mainchain/backend.go copies cache sizes, NoPruning, NoPrefetch, Preimages and SnapshotCache into blockchain.CacheConfig; --cache.snapshot=0 runs without the snapshot tree; SnapshotWait=false, i.e. background generation, is what backend.go passes); a restart is BlockChain.Stop (snapshot journal, head tries) followed by NewBlockChain on the same database, as Kardiachain.Stop / New do; a crash is the node's database as of some durable unit, opened with NewBlockChain (crash.go)")
+	r.Assume("crash images: a Put, a Delete and the Write of a batch each reach the disk atomically and in program order (what leveldb's log gives), so the database after the first p recorded units is what a node killed at that moment finds; whether the node starts on such an image is C05's subject - images on which NewBlockChain or the state store fails or panics are counted with their error text (crash_images_the_node_refuses_to_start_on: ...) and not judged here; what a node that did start computes afterwards is judged here")
+	r.Assume("a node restarted on a crash image is fed the blocks above its head from the chain the other replicas executed, on the consensus state (LatestBlockState) they held at that height: after a crash the stored consensus state can be ahead of the rewound chain head, and how a node gets back from there is C05's subject; losing the most recent blocks in a crash is legitimate, computing another result for a block or refusing a block the others accepted is not")
 	r.Assume("how far the background snapshot generator has come when a block is executed is left to the scheduler (no hook stops it): whether a block overlaps with it is counted from the generator's progress record, not arranged; only the results of block execution are compared, and they must not depend on it")
-	r.Assume("the snapshot tree is driven only by the node's own calls (StateDB.Commit: Update + Cap(root, 128)): merges into the disk layer are reached by chains longer than 128 blocks whose early blocks change 4 MiB of state (ballast writes inside the block gas limit), not by calling Cap with another budget")
+	r.Assume("the snapshot tree is driven only by the node's own calls (StateDB.Commit: Update + Cap(root, 128)): merges into the disk layer are reached by chains longer than 128 blocks whose early blocks change 4 MiB of state (ballast writes inside the block gas limit), not by calling Cap with another budget; merges written in several database batches are reached by account data of more than 100 KB in one merged layer (the sprayer calls), with kaidb.IdealBatchSize as it is")
 
 	r.Cases("valset", r.N(300, 20000), core.Opts{Workers: 16}, valsetCase)
 	// chain-executing groups run in child processes: a crash inside a node's background goroutine is then attributed
@@ -243,6 +248,16 @@ func Main() {
 	r.Floor("trie_cap_flushes_of_several_full_batches", int64(r.N(2, 24)))
 	r.Floor("comparisons_after_a_trie_cap_flush:flushing_vs_long_running_replica", 60)
 	r.Floor("comparisons_after_a_trie_cap_flush:flushing_vs_archive_replica", 30)
+	// crash-restarted replicas: images were taken inside disk-layer merges written in several batches, nodes came up on them,
+	// re-executed the blocks they had lost and were compared
+	r.Floor("disk_layer_merges_written_in_several_batches", int64(r.N(2, 24)))
+	r.Floor("crash_images_taken:inside-multi-batch-disk-layer-merge", int64(r.N(2, 20)))
+	r.Floor("restarts_from_images_taken_inside_a_multi_batch_disk_layer_merge", int64(r.N(2, 16)))
+	r.Floor("restarts_from_crash_images", int64(r.N(3, 40)))
+	r.Floor("crash_restarts_that_lost_blocks", int64(r.N(2, 20)))
+	r.Floor("lost_blocks_reapplied_on_crash_images", int64(r.N(200, 2000)))
+	r.Floor("comparisons_with_replica_crashed_inside_a_multi_batch_disk_layer_merge", int64(r.N(150, 1500)))
+	r.Floor("comparisons_with_crash_restarted_replica", int64(r.N(250, 2500)))
 	// snapshot generation in the background while blocks are executed (scheduler-dependent: the floor is far below what is usually seen)
 	// (no floor on blocks_started_while_the_snapshot_generator_was_running: the overlap is up to the scheduler)
 	r.Finish()
